@@ -9,6 +9,7 @@ import (
 	"encoding/json"
 	"math/rand"
 	"os"
+	"sync"
 
 	"verifharness/vt"
 
@@ -220,16 +221,43 @@ func readLines(path string, f func(line []byte)) {
 	}
 }
 
+// parallel runs f on every plan row (numbered n0+1, n0+2, ...) with a pool of workers; every case draws
+// from its own random stream, so the result does not depend on scheduling.
+func parallel(plan string, n0 int, f func(n int, line []byte)) {
+	type job struct {
+		n    int
+		line []byte
+	}
+	ch := make(chan job, 64)
+	var wg sync.WaitGroup
+	for i := 0; i < workers; i++ {
+		wg.Add(1)
+		go func() {
+			defer wg.Done()
+			for j := range ch {
+				f(j.n, j.line)
+			}
+		}()
+	}
+	n := n0
+	readLines(plan, func(line []byte) {
+		n++
+		ch <- job{n, append([]byte{}, line...)}
+	})
+	close(ch)
+	wg.Wait()
+}
+
+var workers = 8
+
 // runStructural executes the plan: one event per case with the outcome at every entry point.
 func runStructural(plan string, w *vt.Writer, n0 int) {
 	initStructKeys()
-	n := n0
-	readLines(plan, func(line []byte) {
+	parallel(plan, n0, func(n int, line []byte) {
 		var row planRow
 		if err := json.Unmarshal(line, &row); err != nil {
 			vt.Fatal("plan row: %v", err)
 		}
-		n++
 		r := vt.Rng(int64(n))
 		ks, ck := instantiate(&row, r)
 		in := fromProto(ks)
